@@ -1,4 +1,5 @@
 import MidoProofs.SrcTie.Meta
+import MidoProofs.SrcTie.Vlq
 #print axioms Mido.src_check_int
 #print axioms Mido.src_meta_sequence_number_encode
 #print axioms Mido.src_meta_channel_prefix_encode
@@ -11,3 +12,5 @@ import MidoProofs.SrcTie.Meta
 #print axioms Mido.src_meta_midi_port_decode
 #print axioms Mido.src_meta_set_tempo_decode
 #print axioms Mido.src_meta_time_signature_decode
+#print axioms Mido.src_encode_variable_int
+#print axioms Mido.src_encode_variable_int_neg
